@@ -69,6 +69,15 @@ def composition(r):
         return "enums", [{"type": "string", "enum": r.sample(vals, r.randrange(2, 5))},
                          {"type": "string", "enum": r.sample(vals, r.randrange(2, 5))}] + \
             ([{"enum": r.sample(vals, 3)}] if r.random() < 0.3 else [])
+    if k < 0.75:
+        nums = [0.5, 1, 2.5, 10, 4, -3, 7.25]
+        a = {"type": r.choice(["number", "number", "integer"]), "enum": r.sample(nums, r.randrange(3, 6))}
+        if a["type"] == "integer":
+            a["enum"] = [x for x in a["enum"] if isinstance(x, int)] or [1, 4]
+        b = {"enum": r.sample(nums, r.randrange(2, 5))}
+        if r.random() < 0.5:
+            return "num_enums_ref", [{"$ref": "#/definitions/Scale"}, b]
+        return "num_enums", [a, b]
     if k < 0.8:
         return "types", [{"type": r.choice([["string", "integer"], ["integer", "null"], "integer"])},
                          {"type": r.choice([["integer", "boolean"], "integer", ["string", "null"]])}]
@@ -82,6 +91,7 @@ def composition(r):
 
 
 BASE = {"type": "object", "properties": {"base_id": {"type": "integer"}, "tag": {"type": "string"}}, "required": ["base_id"]}
+SCALE = {"type": "number", "enum": [0.5, 1, 2.5, 10]}
 
 
 def candidates(r, branches, defs):
@@ -151,7 +161,7 @@ def run(tier, seed, replay=None):
     for i, label, branches in comps:
         perms = list(itertools.permutations(range(len(branches))))
         for pi, perm in enumerate(perms[:6]):
-            doc = {"definitions": {"Base": BASE, "Comp": {"allOf": [branches[j] for j in perm]}}}
+            doc = {"definitions": {"Base": BASE, "Scale": SCALE, "Comp": {"allOf": [branches[j] for j in perm]}}}
             cid = "a%04d_p%d" % (i, pi)
             cases.append({"id": cid, "settings": {}, "history": [{"op": "root", "schema": doc}]})
             meta[cid] = {"comp": i, "perm": perm, "label": label, "branches": branches, "doc": doc}
@@ -168,7 +178,7 @@ def run(tier, seed, replay=None):
     for gi, cids in groups.items():
         m0 = meta[cids[0]]
         r = util.rng(seed, PROP, "cand", gi)
-        cands = candidates(r, m0["branches"], {"Base": BASE})
+        cands = candidates(r, m0["branches"], {"Base": BASE, "Scale": SCALE})
         cand_of[gi] = cands
         for cid in cids:
             if cid not in ok or cid in run_.s2.removed:
